@@ -294,14 +294,16 @@ pub fn completion_sweep(ctx: &Ctx) -> Acc {
     }
     let plain = interventions(ctx, "C05", false, &acts);
     // the same for an authenticated request with remote credentials R1: unsigned, signed by R1, by R2
-    let mut sealed = vec![Act::Resp { id: 0, class: 2, auth: Auth::Sha1(1), from: 0 }, Act::Resp { id: 0, class: 3, auth: Auth::None, from: 0 }];
+    let mut sealed = vec![Act::Resp { id: 0, class: 2, auth: Auth::Sha1(1), from: 0 }, Act::Resp { id: 0, class: 3, auth: Auth::None, from: 0 }, Act::SetRemote { key: 2 }, Act::SetRemote { key: 1 }, Act::SetRemote { key: 3 }, Act::SetLocal { key: 3 }, Act::SetLocal { key: 0 }];
     for f in RESP_FLAVOURS {
         for auth in [Auth::None, Auth::Sha1(1), Auth::Sha1(2)] {
             sealed.push(Act::Resp { id: 0, class: f, auth, from: 0 });
         }
     }
-    let firsts = [Act::Configure { id: 0, cfg: 1 }, Act::Configure { id: 0, cfg: 4 }, Act::CancelRtx { id: 0 }, Act::Resp { id: 0, class: 4, auth: Auth::None, from: 0 }, Act::Send { id: 0, dest: 1, seal: Seal::None, shape: 0 }, Act::Incoming { class: 0, id: 0, from: 0 }];
-    let seconds = [Act::Resp { id: 0, class: 2, auth: Auth::Sha1(1), from: 0 }, Act::Resp { id: 0, class: 3, auth: Auth::None, from: 0 }, Act::Cancel { id: 0 }, Act::CancelRtx { id: 0 }, Act::Configure { id: 0, cfg: 3 }, Act::Configure { id: 0, cfg: 0 }];
+    // (credentials set, replaced by other ones, replaced by equal ones, local credentials set: none of
+    // these touches an outstanding request)
+    let firsts = [Act::Configure { id: 0, cfg: 1 }, Act::Configure { id: 0, cfg: 4 }, Act::CancelRtx { id: 0 }, Act::Resp { id: 0, class: 4, auth: Auth::None, from: 0 }, Act::Send { id: 0, dest: 1, seal: Seal::None, shape: 0 }, Act::Incoming { class: 0, id: 0, from: 0 }, Act::SetRemote { key: 2 }, Act::SetRemote { key: 1 }, Act::SetRemote { key: 3 }, Act::SetLocal { key: 3 }, Act::SetLocal { key: 0 }];
+    let seconds = [Act::Resp { id: 0, class: 2, auth: Auth::Sha1(1), from: 0 }, Act::Resp { id: 0, class: 2, auth: Auth::Sha1(2), from: 0 }, Act::Resp { id: 0, class: 3, auth: Auth::None, from: 0 }, Act::Cancel { id: 0 }, Act::CancelRtx { id: 0 }, Act::Configure { id: 0, cfg: 3 }, Act::Configure { id: 0, cfg: 0 }];
     plain.merge(interventions(ctx, "C05", true, &sealed)).merge(pair_interventions(ctx, "C05", true, &firsts, &seconds)).merge(pair_interventions(ctx, "C05", false, &firsts, &seconds))
 }
 
@@ -325,7 +327,7 @@ pub fn transmission_sweep(ctx: &Ctx) -> Acc {
 /// schedule afterwards is the one without it; a genuine response is delivered.
 pub fn forgery_sweep(ctx: &Ctx) -> Acc {
     let mut acts = Vec::new();
-    for auth in [Auth::Sha1(2), Auth::None, Auth::Sha1Flipped(1), Auth::Sha1(0), Auth::Sha256(2), Auth::Sha1(1), Auth::Sha256(1), Auth::Both(1), Auth::Sha256Trunc(1), Auth::Sha256Trunc(2), Auth::Sha256Flipped(1), Auth::MixedSha1Good(1), Auth::MixedSha256Good(1), Auth::MixedSha256Good(2)] {
+    for auth in [Auth::Sha1(2), Auth::None, Auth::Sha1Flipped(1), Auth::Sha1(0), Auth::Sha256(2), Auth::Sha1(1), Auth::Sha256(1), Auth::Both(1), Auth::Sha256Trunc(1), Auth::Sha256Trunc(2), Auth::Sha256Flipped(1), Auth::MixedSha1Good(1), Auth::MixedSha256Good(1), Auth::MixedSha256Good(2), Auth::Sha1WireLenFp(1), Auth::Sha256WireLenFp(1)] {
         acts.push(Act::Resp { id: 0, class: 2, auth, from: 0 });
     }
     acts.push(Act::Resp { id: 0, class: 3, auth: Auth::None, from: 2 });
